@@ -21,6 +21,12 @@ CLAIMED = {
              "parse(render(tree)) = tree for three parenthesisations as a theorem of the spec, and every WF sequence is "
              "replayed: build_operator_tree must give the grammar's tree.",
         note=TRUST, tech="TLC model of the grammar + spec-to-code tree conformance", ref="5 C02"),
+    "C03": dict(
+        text="Operators.tla states the operator semantics (exact integer arithmetic on limbs in Int64.tla, IEEE results as "
+             "environment primitives, promotion, comparison, equality, type errors); TLC enumerates 16 operators x pool^2 "
+             "of boundary values, checks type-table / symmetry / overflow laws on the specification and emits each case; "
+             "the real result must be bit-identical or an error of the same class.",
+        note=TRUST, tech="TLC enumeration of operator x operand pairs against an executable TLA+ semantics", ref="5 C03"),
     "C05": dict(
         text="All token sequences over the sequence alphabets up to length 7/9 are parsed by the normative grammar "
              "(chain of tuples of optional elements) under TLC with the shape theorem as invariant; the real tree "
